@@ -182,6 +182,8 @@ class L0:
             if self.is_cat(t):
                 a, b = t.arg(0), t.arg(1)
                 facts.append(self.slenf(t) == self.length(a) + self.length(b))
+                facts.append(z3.Implies(a == self.empty, t == b))      # unit laws (instances)
+                facts.append(z3.Implies(b == self.empty, t == a))
                 for f in self.additive:
                     facts.append(f(t) == f(a) + f(b))
             for f in self.additive:
